@@ -155,6 +155,9 @@ def sites(repo="/repo"):
             end = match_paren(src, m.end() - 1)
             args = split_args(src[m.end():end - 1])
             found.append((m.start(), m.group("recv"), m.group("op"), args, []))
+        # the `listener!(event => name)` macro of event-listener registers a stack listener
+        for m in re.finditer(r"listener!\(\s*(?:self|this)\s*\.\s*(\w+)\s*=>", src):
+            found.append((m.start(), m.group(1), "listen", ["listener!"], []))
         for pos, recv, op, vals, ords in sorted(found):
             inner = [fn for fn in fns if fn[1] <= pos <= fn[2]]
             fn = max(inner, key=lambda x: x[1])[0] if inner else "?"
